@@ -314,6 +314,26 @@ fn main() {
             }
         }
     }
+    // many unknowns (the property says any number): more than 64 samples of three free parameters each
+    for (k, n) in (if quick { vec![100usize, 300] } else { vec![80, 100, 150, 200, 230, 260, 300, 400] }).into_iter().enumerate() {
+        if SLOW.load(std::sync::atomic::Ordering::Relaxed) >= 3 * MAX_SLOW {
+            break;
+        }
+        // no free parameter without an equation: every free parameter is an unknown with an equation of its own
+        let mut sys = gen_system(&mut rng, n, false);
+        while sys.loose.iter().any(|l| *l) || nfree_of(&sys) == 0 { sys = gen_system(&mut rng, n, false); }
+        if k % 2 == 0 { run::<VmFunction>(&mut w, &mut id, "vm", &sys); } else { run::<JitFunction>(&mut w, &mut id, "jit", &sys); }
+    }
+    // equations that are constants (they read no variable at all) next to free parameters: everything is satisfied
+    // exactly at the start, which must be returned unchanged
+    for n in 1..=4usize {
+        let mut sys = gen_system(&mut rng, n, true);
+        sys.fixed = vec![false; n];
+        sys.loose = vec![true; n];
+        sys.eqs = (0..n).map(|_| (vec![0i64; n], 0i64)).collect();
+        run::<VmFunction>(&mut w, &mut id, "vm", &sys);
+        run::<JitFunction>(&mut w, &mut id, "jit", &sys);
+    }
     w.flush().unwrap();
     eprintln!("c19: {id} solves");
 }
